@@ -6,7 +6,7 @@ from core import BaseProp, Verdict
 from proto import T
 
 RULE = ('random render-distinct trees (depth <= 4, arity 2-5, WITH pairs, multi-word keys whose order differs between tuple and '
-        'string comparison; one tree in seven over keys that differ only in how a number is written: leading zeros, digit runs of other lengths, a non-ASCII digit) and 1-4 random rewrites of each (permute, regroup by associativity, repeat an operand, add an operand '
+        'string comparison; one tree in seven over keys that differ only in how a number is written: leading zeros, digit runs of other lengths, a non-ASCII digit, a ligature) and 1-4 random rewrites of each (permute, regroup by associativity, repeat an operand, add an operand '
         'absorbed by a single license, anywhere in the tree); Spec on the real code: simplify is idempotent, all rewrites give the '
         'same text, and the result has no operand of its node\'s kind, no two equal operands, and operands ascending under the '
         'implementation\'s own <; correspondence: the full result (order included) with the model. The two listed known findings '
@@ -15,9 +15,10 @@ ASSUMPTIONS = ['RenderDistinct: unequal atoms of one tree render differently (wh
                'point is known finding K2']
 
 KEYS = ['a', 'b', 'c', 'mit', 'GPL', 'GPL 2.0', 'GPL 3.0', 'gpl-2.0', 'gpl-2.0-plus', 'x']
-# keys that differ only in how a number is written (leading zeros, digit runs of other lengths, a non-ASCII digit):
+# keys that differ only in how a number is written (leading zeros, digit runs of other lengths, a non-ASCII digit, a ligature):
 # distinct strings that any order "by value" would tie or reorder
-NUMKEYS = ['lgpl-2.1', 'lgpl-2.01', 'lgpl-2.10', 'gpl-2', 'gpl-02', 'gpl-10', 'gpl-3', 'gpl-\u0663', 'cc-by-3.0', 'cc-by-3.00']
+NUMKEYS = ['lgpl-2.1', 'lgpl-2.01', 'lgpl-2.10', 'gpl-2', 'gpl-02', 'gpl-10', 'gpl-3', 'gpl-\u0663', 'cc-by-3.0', 'cc-by-3.00',
+           'file-lic', '\ufb01le-lic']   # ... or only by a Unicode compatibility form (the fi ligature)
 
 
 class Prop(BaseProp):
